@@ -350,3 +350,79 @@ def check_iterator_statuses(ctx):
         from ..rules import check_automaton
         check_automaton(ctx, "T4-iterator-status-read", "twoiter:saverr-before-replace", ti, 0, step, edge,
                         "an existing data iterator is replaced only after its status was saved")
+
+
+def check_separators(ctx):
+    """Index keys: start <= separator < limit and key <= successor.  Decided
+    structurally: the bytewise comparator bumps a byte only where that keeps
+    the result strictly below the limit (room of at least 2 at the first
+    differing byte, inside the common length) and never bumps 0xff; the
+    internal-key wrappers replace the key only if the user part became
+    shorter and logically larger, and then append the (MAX_SEQUENCE, SEEK)
+    tag, which sorts first among equal user keys."""
+    CMP = "src/util/comparator.c"
+    f = ctx.fn("shortest_separator", CMP)
+    g = xgraph(ctx.P, f)
+    bumps = [(b, i, e) for (b, i, e) in f.events() if e["e"] in ("inc", "asg") and "start->data[diff_index]" == key(e.get("x") or e.get("lhs"))]
+    ctx.require(len(bumps) == 1, "shortest_separator: byte bump not found")
+    b, i, e = bumps[0]
+    atoms = g.must_at(b, i)
+    ok = holds(atoms, ("<", "(diff_byte + 1)", "limit->data[diff_index]")) and holds(atoms, ("<", "diff_byte", 255)) and \
+        holds(atoms, ("<", "diff_index", "min_length"))
+    ctx.check(ok, "T2-separator-contract", "bytewise:bump-has-room", f.name, site(f, e),
+              "the first differing byte is bumped only if the result stays strictly below the limit",
+              "byte bump reachable without room below the limit; facts %s" % fmt_atoms(atoms))
+    d = {x["n"]: key(x.get("init")) for _, _, x in f.events("decl")}
+    ctx.check(d.get("diff_byte") == "start->data[diff_index]", "T2-separator-contract", "bytewise:diff-byte", f.name, f.loc,
+              "diff_byte is the start byte at the first difference", "diff_byte is %s" % d.get("diff_byte"))
+    from ..rules import must_pass_before_success
+    must_pass_before_success(ctx, "T2-separator-contract", "bytewise:truncate-after-bump", f,
+                             lambda x: x is e, lambda x: is_call(x, "ldb_buffer_resize") and argkey(x, 0) == "start" and
+                             argkey(x, 1) == "(diff_index + 1)", "the separator is cut right after the bumped byte",
+                             success=lambda x, st: True)
+    # the scan stops at the first differing byte
+    heads = [blk for blk in f.blocks.values() if blk.term is not None and "cond" in blk.term and
+             key(blk.term["cond"]) == "(start->data[diff_index] == limit->data[diff_index])"]
+    ctx.check(len(heads) == 1, "T2-separator-contract", "bytewise:first-difference", f.name, f.loc,
+              "the common prefix ends at the first differing byte", "prefix scan condition changed")
+    ss = ctx.fn("short_successor", CMP)
+    gs = xgraph(ctx.P, ss)
+    bumps = [(b, i, x) for (b, i, x) in ss.events() if x["e"] in ("inc", "asg") and key(x.get("x") or x.get("lhs")) == "key->data[i]"]
+    ctx.require(len(bumps) == 1, "short_successor: byte bump not found")
+    b, i, x = bumps[0]
+    atoms = gs.must_at(b, i)
+    ctx.check(holds(atoms, ("!=", "key->data[i]", 255)) and holds(atoms, ("<", "i", "key->size")), "T2-separator-contract",
+              "bytewise:successor-bump", ss.name, site(ss, x), "only a byte below 0xff inside the key is bumped",
+              "successor bump unguarded; facts %s" % fmt_atoms(atoms))
+    must_pass_before_success(ctx, "T2-separator-contract", "bytewise:successor-truncate", ss,
+                             lambda y: y is x, lambda y: is_call(y, "ldb_buffer_resize") and argkey(y, 1) == "(i + 1)",
+                             "the successor is cut right after the bumped byte", success=lambda y, st: True)
+    # internal-key wrappers
+    for name, orig, ukey in (("ldb_ikc_shortest_separator", "start", "user_start"), ("ldb_ikc_short_successor", "key", "user_key")):
+        w = ctx.fn(name, "src/dbformat.c")
+        gw = xgraph(ctx.P, w)
+        sw = [(b, i, y) for (b, i, y) in w.events("call") if is_call(y, "ldb_buffer_swap") and argkey(y, 0) == orig]
+        ctx.require(len(sw) == 1, "%s: result swap not found" % name)
+        tag = [(b, i, y) for (b, i, y) in w.events("call") if is_call(y, "ldb_buffer_fixed64") and argkey(y, 0) == "&tmp"]
+        ctx.check(len(tag) == 1, "T2-separator-contract", "%s:tag" % name, w.name, w.loc,
+                  "the shortened user key gets an 8-byte tag", "tag append changed")
+        if tag:
+            atoms = gw.must_at(tag[0][0], tag[0][1])
+            ok = holds(atoms, ("<", "tmp.size", "%s.size" % ukey)) and \
+                holds(atoms, ("<", "re:.*compare.*\\(uc, \\(&%s\\), \\(&tmp\\)\\)#\\d+" % ukey, "0"))
+            ctx.check(ok, "T2-separator-contract", "%s:replace-guard" % name, w.name, site(w, tag[0][2]),
+                      "the key is replaced only by a shorter, logically larger user key",
+                      "replacement guard changed; facts %s" % fmt_atoms(atoms))
+        if tag:
+            from ..rules import always_before
+            always_before(ctx, "T2-separator-contract", "%s:tag-before-swap" % name, w,
+                          lambda y: is_call(y, "ldb_buffer_fixed64") and argkey(y, 0) == "&tmp",
+                          lambda y: is_call(y, "ldb_buffer_swap"), "the tag is appended before the key is replaced")
+            a1 = tag[0][2]["a"][1]
+            from ..program import walk
+            consts = {const_val(n) for n in walk(a1) if const_val(n) is not None}
+            names = " ".join(str(n.get("mac")) for n in walk(a1) if n.get("mac"))
+            ctx.check(("LDB_MAX_SEQUENCE" in names or (2 ** 56 - 1) in consts or const_val(a1) == ((2 ** 56 - 1) << 8 | 1)),
+                      "T2-separator-contract", "%s:tag-is-max-seek" % name, w.name, site(w, tag[0][2]),
+                      "the tag is (MAX_SEQUENCE, SEEK): the earliest internal key of that user key",
+                      "tag value is %s" % key(a1))
